@@ -60,6 +60,17 @@ class Env:
 
 UNBOUND = object()
 
+# constants of the interpreter that runs the repository (CPython 3.12), recorded as data
+EXTERNAL_CONSTANTS = {
+    'importlib.machinery.SOURCE_SUFFIXES': ['.py'],
+    'importlib.machinery.BYTECODE_SUFFIXES': ['.pyc'],
+    'importlib.util.MAGIC_NUMBER': b'\xcb\r\r\n',
+    'os.path.extsep': '.',
+    'os.extsep': '.',
+    'os.sep': '/',
+    'os.F_OK': 0,
+}
+
 BUILTIN_EXC = {
     'BaseException': None, 'Exception': 'BaseException', 'KeyError': 'LookupError', 'IndexError': 'LookupError',
     'LookupError': 'Exception', 'TypeError': 'Exception', 'ValueError': 'Exception',
@@ -270,6 +281,9 @@ class Interp:
     def external(self, dotted):
         if dotted == 'sys.version':
             return self.fresh_str('sys.version')
+        if dotted in EXTERNAL_CONSTANTS:
+            from .contract import _const
+            return _const(EXTERNAL_CONSTANTS[dotted])
         if dotted in self.world.models:
             return VBuiltin(dotted, self.world.models[dotted])
         return VModule(dotted)
